@@ -23,7 +23,9 @@ MANIFEST_ENTRY = {
           "data object, the program the tree compiler builds is typable, ends every expression at depth one and is entered at (0,0); "
           "C06_balanced_covers_*: on the same three bounded input spaces every accepted program outside the finding classes keeps the "
           "discipline (beyond the bounds this is checked per program on every run, field L of the model driver). The tree compiler is "
-          "tied to the worklist model of build() by the bounded agreement theorems of C05 and per program on every run. "
+          "tied to the worklist model of build() by compile_agrees_full (Properties/C05.v, proved for ALL node arrays that form a proper "
+          "tree, all initial states, all fuel: a successful build IS the tree compiler's result), so C06_static_full_builder states "
+          "the same directly for BuilderWL.build; the agreement is also re-checked per program on every run. "
           "On every run the depth harness builds each program on both data implementations and executes it "
           "step by step; every observed step must be a move of the abstract machine, the observed depths must equal the typed "
           "ones, and the native abstract interpretation of the real instruction stream must agree with the extracted Coq one.",
@@ -256,7 +258,7 @@ def run(tier, seed):
     sy = vplib.sync(["instr", "defs", "tokentypes", "execmap"])
     for name, err in sy.get("errors", {}).items():
         v.tie_failure("translator %s: %s" % (name, err))
-    pr = vplib.prove(PID, ["Proofs/C06"], extra_targets=["Extract/DepthExtract.vo"])
+    pr = vplib.prove(PID, ["Proofs/C06", "Proofs/Builder"], extra_targets=["Extract/DepthExtract.vo"])
     for f in pr["failures"]:
         v.tie_failure("prove: " + f)
     v.coverage.update(vplib.proof_coverage(
